@@ -375,18 +375,21 @@ func c12IsBracket(t token.Type) bool {
 }
 
 type c12GapChange struct {
-	index int    // gap index: gap i precedes significant token i; gap len(sig) is the tail
-	text  string // new gap text
+	index int    // gap index: gap i precedes significant token i; gap len(sig) is the tail; -1 is the hash-bang line
+	text  string // new gap text (index -1: the new first line, "" = none)
 	class string
 	left  string
 	right string
+	huge  bool // holds a comment longer than the 128 KiB sliding window: source-sized scanner only
 }
 
 type c12Layout struct {
 	src  string
 	sig  []c12Tok // significant (non-comment) tokens after the fixed prefix
 	gaps []string // gaps[i] precedes sig[i]; gaps[len(sig)] is the tail
-	head string   // untouched prefix (hash-bang line)
+	head string   // prefix (hash-bang line); kept byte for byte unless change -1 rewrites it
+	// per re-layout: may comment bodies hold invalid UTF-8 / outgrow the sliding window
+	allowInvalid, allowHuge bool
 	free []bool   // gap may be changed
 	need []bool   // gap must stay non-empty
 }
@@ -482,6 +485,8 @@ func (l *c12Layout) leftClass(i int) string {
 // glueClass describes what the new gap puts directly after the left token.
 func (l *c12Layout) glueClass(c c12GapChange) string {
 	switch {
+	case c.index == -1:
+		return "hashbang"
 	case c.text == "":
 		return c.right
 	case strings.HasPrefix(c.text, ";"):
@@ -493,8 +498,9 @@ func (l *c12Layout) glueClass(c c12GapChange) string {
 
 var c12CommentBodies = []string{"", " c", "; doc", " (", " )", " [", " \"", " '", " #'", " #!", " \\", " é", " -", " 1e5", "\t", " \r", " \"\"\"", " ;; x ; y"}
 
-// c12NewGap draws a replacement for gap i.
-func (l *c12Layout) newGap(r *fw.RNG, i int) (string, string) {
+// c12NewGap draws a replacement for gap i.  Half of the comments carry one of
+// the tame bodies above, half a hostile one (c12HostileBody).
+func (l *c12Layout) newGap(r *fw.RNG, i int) (string, string, bool) {
 	old := l.gaps[i]
 	tail := i == len(l.sig)
 	ws := func() string {
@@ -503,9 +509,18 @@ func (l *c12Layout) newGap(r *fw.RNG, i int) (string, string) {
 		return fw.Pick(r, []string{" ", " ", "  ", "\t", "\n", "\n\n", "\r\n", " \n ", "\n\t", "    ",
 			"\f", "\v", "\u0085", "\u00a0", "\u1680", "\u2003", "\u2028", "\u2029", "\u202f", "\u205f", "\u3000", " \u00a0", "\f\n"})
 	}
-	comment := func() string { return ";" + fw.Pick(r, c12CommentBodies) + "\n" }
-	oldHasComment := strings.Contains(old, ";")
 	for tries := 0; tries < 8; tries++ {
+		hostile, huge := false, false
+		body := func() string {
+			if r.Bool() {
+				return fw.Pick(r, c12CommentBodies)
+			}
+			hostile = true
+			b, h := c12HostileBody(r, l.allowInvalid, l.allowHuge)
+			huge = huge || h
+			return b
+		}
+		comment := func() string { return ";" + body() + "\n" }
 		var nw, class string
 		switch r.Intn(7) {
 		case 0:
@@ -528,7 +543,8 @@ func (l *c12Layout) newGap(r *fw.RNG, i int) (string, string) {
 			class = "to-comments"
 		case 5:
 			if tail {
-				nw = " ;" + fw.Pick(r, c12CommentBodies) // no final newline at end of input
+				// no final newline at end of input
+				nw = fw.Pick(r, []string{" ;", " ;", ";", "\n;", ";c\n;"}) + body()
 				class = "to-eof-comment"
 			} else {
 				nw = comment()
@@ -544,23 +560,66 @@ func (l *c12Layout) newGap(r *fw.RNG, i int) (string, string) {
 		if nw == old {
 			continue
 		}
+		if hostile {
+			class += "+hostile"
+		}
 		from := "ws"
 		switch {
 		case old == "":
 			from = "empty"
-		case oldHasComment:
+		case strings.Contains(old, ";"):
 			from = "comment"
 		}
-		return nw, from + "-" + class
+		return nw, from + "-" + class, huge
 	}
-	return old, ""
+	return old, "", false
+}
+
+// c12NewHead draws a replacement for the hash-bang line: another body, or
+// (rarely) no hash-bang line at all.  The grammar makes the line optional, so
+// a text without one may receive one.
+func (l *c12Layout) newHead(r *fw.RNG) (string, string, bool) {
+	from := "nohashbang"
+	if l.head != "" {
+		from = "hashbang"
+	}
+	if l.head != "" && r.Chance(1, 8) {
+		return "", from + "-to-none", false
+	}
+	hostile, huge := false, false
+	var body string
+	switch r.Intn(4) {
+	case 0:
+		body = fw.Pick(r, []string{"", "/usr/bin/env elps", " /usr/bin/env elps", "/bin/elps run", " x"})
+	case 1:
+		body = fw.Pick(r, c12CommentBodies)
+	default:
+		hostile = true
+		body, huge = c12HostileBody(r, l.allowInvalid, l.allowHuge)
+	}
+	nw := "#!" + body + "\n"
+	if nw == l.head {
+		return l.head, "", false
+	}
+	class := from + "-to-hashbang"
+	if hostile {
+		class += "+hostile"
+	}
+	return nw, class, huge
 }
 
 // c12Relayout draws a set of gap changes.
 func (l *c12Layout) relayout(r *fw.RNG) []c12GapChange {
 	var out []c12GapChange
 	mode := r.Intn(4) // 0: every gap, 1: half, 2: a few, 3: exactly one
+	// invalid UTF-8 in a comment makes a rejection unjudgeable for the whole
+	// re-layout, so it is confined to a tenth of them
+	l.allowInvalid = r.Chance(1, 10)
+	// -1: the hash-bang line.  Rewritten where there is one; added to one text in four.
 	var idxs []int
+	if l.head != "" || r.Chance(1, 4) {
+		idxs = append(idxs, -1)
+	}
 	for i := range l.gaps {
 		if l.free[i] {
 			idxs = append(idxs, i)
@@ -586,11 +645,18 @@ func (l *c12Layout) relayout(r *fw.RNG) []c12GapChange {
 		if mode != 3 && !pick(i) {
 			continue
 		}
-		nw, class := l.newGap(r, i)
+		if i == -1 {
+			nw, class, huge := l.newHead(r)
+			if class != "" {
+				out = append(out, c12GapChange{index: -1, text: nw, class: class, left: "BOF", right: "BOF", huge: huge})
+			}
+			continue
+		}
+		nw, class, huge := l.newGap(r, i)
 		if class == "" {
 			continue
 		}
-		out = append(out, c12GapChange{index: i, text: nw, class: class, left: l.tokName(i - 1), right: l.tokName(i)})
+		out = append(out, c12GapChange{index: i, text: nw, class: class, left: l.tokName(i - 1), right: l.tokName(i), huge: huge})
 	}
 	return out
 }
@@ -602,7 +668,11 @@ func (l *c12Layout) apply(chs []c12GapChange) string {
 		repl[c.index] = c.text
 	}
 	var sb strings.Builder
-	sb.WriteString(l.head)
+	if nw, ok := repl[-1]; ok {
+		sb.WriteString(nw)
+	} else {
+		sb.WriteString(l.head)
+	}
 	for i, t := range l.sig {
 		if nw, ok := repl[i]; ok {
 			sb.WriteString(nw)
